@@ -69,7 +69,71 @@ class Quiescence:
                             break
 
 
+async def run_early(flavor, p, cnt, v, sigs):
+    """The server answers an upload before the body is complete (413, END_STREAM, optionally RST_STREAM(NO_ERROR)) and
+    gives no more flow-control credit: the request has been answered, so its caller must come back - with the response
+    or with a documented error - and not wait for credit that will never come."""
+    from .. import simnet, endpoints
+    from ..world import mk_pool, API, guarded, documented, exc_name
+    net = simnet.Net()
+    net.log_events = False
+    nth = p["nth"]
+    script = {"settings": {3: 100, 4: p["iws"]}, "win": p["win"],
+              "actions": [{"when": ("head", nth), "do": "early", "rst": p["rst"], "status": 413}]}
+    origin = endpoints.Origin(net, "o.test", 443, tls=True, alpn=["h2"], h2_script=script)
+    pool = mk_pool(flavor, net, http2=True, max_connections=1)
+    api = API(flavor, pool, net)
+
+    async def scen():
+        res = []
+        for i in range(nth + 1):
+            big = i == nth
+            body = api.body([b"u" * 3000] * (p["chunks"] if big else 0)) if big else None
+            try:
+                r_ = await api.request("POST" if big else "GET", "https://o.test/e", headers=[("X-Token", f"e{i}")], content=body)
+                res.append(("ok", r_.status))
+            except Exception as exc:  # noqa
+                res.append(("exc", exc))
+        # and the connection (or a new one) still serves
+        r2 = await api.request("GET", "https://o.test/after", headers=[("X-Token", "after")])
+        res.append(("ok", r2.status))
+        return res
+
+    out = await guarded(flavor, scen)
+    cnt["early_answer_runs"] = cnt.get("early_answer_runs", 0) + 1
+    cnt["oracle_o2"] += 1
+    sigs.add(f"early|{flavor}|{p}")
+    ctx = {"params": p, "flavor": flavor}
+    if out.kind == "hang":
+        v("o2:answered-upload-blocked-forever" + (":rst" if p["rst"] else ""), "the server answered the upload early (413) and gives no more "
+          "credit; the caller waits for flow-control credit for ever", ctx)
+    elif out.kind != "ok":
+        v("early-answer-harness", repr(out), ctx)
+    else:
+        kind, val = out.value[nth]
+        if kind == "exc" and not documented(val):
+            v("early-answer-undocumented-exception:" + exc_name(val), repr(val), ctx)
+        elif kind == "ok" and val != 413:
+            v("early-answer-wrong-response", f"status {val}", ctx)
+        if out.value[-1] != ("ok", 200):
+            v("request-after-early-answer-failed", repr(out.value[-1]), ctx)
+    await guarded(flavor, api.close_pool)
+
+
 def run_case(case):
+    if case.get("early"):
+        viol, cnt, sigs = [], {"workloads": 0, "quiescent_instants": 0, "quiescent_with_queue": 0, "oracle_o1": 0, "oracle_o2": 0,
+                               "callers_terminated": 0, "pool_timeouts": 0, "requests": 0, "external_cancellations": 0}, set()
+
+        def v_(key, what, detail):
+            if not any(x["key"] == key for x in viol):
+                viol.append({"key": key, "what": what, "detail": detail})
+
+        async def main_():
+            for p in case["early"]:
+                await run_early(case["flavor"], p, cnt, v_, sigs)
+        run_flavor(case["flavor"], None, main_, seed=case["seed"])
+        return {"viol": viol, "counters": cnt, "sigs": sorted(sigs), "sample": None}
     viol = []
     cnt = {"workloads": 0, "quiescent_instants": 0, "quiescent_with_queue": 0, "oracle_o1": 0, "oracle_o2": 0,
            "callers_terminated": 0, "pool_timeouts": 0, "requests": 0, "external_cancellations": 0}
@@ -156,4 +220,8 @@ def plan(tier, seed):
                     n_settings_specs[0] += 1
             specs.append(gen_spec(r, flavor, **over))
         cases.append({"flavor": flavor, "specs": specs, "seed": r.randrange(1 << 30)})
+    for flavor in ("asyncio", "trio", "sync"):
+        ps = [{"nth": nth, "iws": iws, "win": win, "rst": rst, "chunks": ch}
+              for nth in (0, 1) for iws in (1000, 65535) for win in ("none", "auto") for rst in (False, True) for ch in (2, 30)]
+        cases.append({"flavor": flavor, "early": ps, "seed": r.randrange(1 << 30)})
     return cases
